@@ -5,8 +5,10 @@ for l in open('/verif/properties.jsonl'):
     p=json.loads(l); props[p['id']]=p
 ids=['C01','C02','C03','C04','C05','C06','C07','C08','C11','C12','C14','C15','C16','C18','C20']
 tmpl=open('/tmp/mut/PROMPT.tmpl').read()
-hint=("3c. A verifier will probably run the indexing pipeline against a simulated JSON-RPC node and a simulated Postgres with random configurations, fault injection, restarts and reorgs, and compare stored rows and recorded positions with a reference model. "
+import os
+hint_default=("3c. A verifier will probably run the indexing pipeline against a simulated JSON-RPC node and a simulated Postgres with random configurations, fault injection, restarts and reorgs, and compare stored rows and recorded positions with a reference model. "
 "Earlier attempts concentrated on the obvious functions. This time look for a place that is inside the property's quantifier but off the beaten path: state that only matters after many steps (pruning of old position rows, caches that fill up and evict, counters that wrap, the 1000-iteration reorg loop), options that are rarely combined (several URLs per source, websocket head listener, poll durations, concurrency with a failing partition, notifications, indexes/unique lists in table definitions, adding a column to an existing table on restart), values at boundaries (block 0, empty blocks, empty arrays, zero-length data, maximum widths), error paths that are retried, context cancellation at shutdown/restart, or behaviour that depends on Go map iteration order. Prefer a file or function none of the earlier attempts touched.")
+hint = open(os.environ["HINT_FILE"]).read().strip() if os.environ.get("HINT_FILE") else hint_default
 for pid in ids:
     p=props[pid]
     name=pid+wave
